@@ -102,43 +102,49 @@ func NestedInParens(p *load.Prog, r *oblig.Report, rule string, funcs []*ssa.Fun
 			r.Bad(rule, construct, p.Pos(f.Pos()), n+" is also reached from "+bad+": a nested operator is printed without the parentheses that parseSubRelation adds, so the text re-parses to a different tree")
 		}
 	}
-	// in parseSubRelation: the result of each operator printer flows into Sprintf("(%s)") and nothing else
-	for _, n := range names {
-		construct := "parenthesised-return:" + n
-		ok, why := false, "no call of "+n+" in parseSubRelation"
-		for _, call := range callersOf([]*ssa.Function{sub}, ops[n])[sub] {
-			val, _ := call.(ssa.Value)
-			var str ssa.Value
-			if refs := val.Referrers(); refs != nil {
-				for _, ref := range *refs {
-					if ex, isEx := ref.(*ssa.Extract); isEx && ex.Index == 0 {
-						str = ex
-					}
+	// in parseSubRelation: wherever the text of an operator printer appears in a returned string it stands
+	// between "(" and ")" (Sprintf, concatenation or a wrapping helper — all read as templates)
+	isOpText := func(v ssa.Value) string {
+		if ex, ok := v.(*ssa.Extract); ok && ex.Index == 0 {
+			v = ex.Tuple
+		}
+		if c, ok := v.(*ssa.Call); ok {
+			for n, f := range ops {
+				if c.Common().StaticCallee() == f {
+					return n
 				}
-			}
-			if str == nil {
-				why = "the text returned by " + n + " is not used"
-				continue
-			}
-			for _, si := range sprintfCalls(sub, "Sprintf") {
-				for _, a := range si.args {
-					if a == str {
-						if strings.HasPrefix(si.format, "(") && strings.HasSuffix(si.format, ")") {
-							ok = true
-						} else {
-							why = fmt.Sprintf("the text returned by %s is formatted with %q, which does not start with '(' and end with ')'", n, si.format)
-						}
-					}
-				}
-			}
-			if !ok && why == "no call of "+n+" in parseSubRelation" {
-				why = "the text returned by " + n + " does not flow into a Sprintf that adds parentheses"
 			}
 		}
-		if ok {
-			r.OK(rule, construct, p.Pos(sub.Pos()), "format-shape", "\"(%s)\"")
-		} else {
-			r.Bad(rule, construct, p.Pos(sub.Pos()), why)
+		return ""
+	}
+	wrapped, bare := map[string]bool{}, map[string]string{}
+	for _, t := range ReturnTemplates(sub, ops["parseUnion"], ops["parseIntersection"], ops["parseDifference"]) {
+		for i, pc := range t {
+			n := ""
+			if pc.Val != nil {
+				n = isOpText(pc.Val)
+			}
+			if n == "" {
+				continue
+			}
+			before := i > 0 && t[i-1].Val == nil && strings.HasSuffix(t[i-1].Lit, "(")
+			after := i+1 < len(t) && t[i+1].Val == nil && strings.HasPrefix(t[i+1].Lit, ")")
+			if before && after {
+				wrapped[n] = true
+			} else {
+				bare[n] = TemplateString(t)
+			}
+		}
+	}
+	for _, n := range names {
+		construct := "parenthesised-return:" + n
+		switch {
+		case bare[n] != "":
+			r.Bad(rule, construct, p.Pos(sub.Pos()), fmt.Sprintf("parseSubRelation returns the text of %s as %q: it is not enclosed in '(' and ')', so the nested operator re-parses to a different tree", n, bare[n]))
+		case wrapped[n]:
+			r.OK(rule, construct, p.Pos(sub.Pos()), "template-shape", "\"(\" + text + \")\" in every returned string")
+		default:
+			r.Bad(rule, construct, p.Pos(sub.Pos()), "the text returned by "+n+" does not reach a string returned by parseSubRelation between parentheses")
 		}
 	}
 }
@@ -404,37 +410,29 @@ func HoistShape(p *load.Prog, r *oblig.Report, rule string) {
 			if v == ssa.Value(x) {
 				continue
 			}
-			// append(append(fresh{x[p]}, x[:p]...), x[p+1:]...)
-			outer, ok1 := appendCall(v)
-			if !ok1 {
+			// fresh list made of x[p], x[:p], x[p+1:] — however it is spelled (literal, make+append, nil+append)
+			segs, why := listExpr(v, x, 0)
+			if why != "" {
 				okAll = false
-				r.Bad(rule, construct, p.Pos(ret.Pos()), "the hoisted list is not built as append(append([]T{x[p]}, x[:p]...), x[p+1:]...)")
+				r.Bad(rule, construct, p.Pos(ret.Pos()), "the hoisted list is not a fresh list built from the argument's elements: "+why+" (operands are lost, or the caller's array is written)")
 				continue
 			}
-			inner, ok2 := appendCall(outer.Common().Args[0])
-			if !ok2 {
-				okAll = false
-				r.Bad(rule, construct, p.Pos(ret.Pos()), "the hoisted list is not built from a fresh one-element list: operands are lost or the caller's array is written")
-				continue
-			}
-			base := inner.Common().Args[0]
-			sl, isSl := base.(*ssa.Slice)
-			_, fresh := func() (*ssa.Alloc, bool) {
-				if !isSl {
-					return nil, false
+			var shape []string
+			var pos ssa.Value
+			samePos := true
+			for _, sg := range segs {
+				shape = append(shape, sg.kind)
+				if sg.p != nil {
+					if pos == nil {
+						pos = sg.p
+					} else if pos != sg.p {
+						samePos = false
+					}
 				}
-				al, k := sl.X.(*ssa.Alloc)
-				return al, k
-			}()
-			before, okB := sliceOf(inner.Common().Args[1], x)
-			after, okA := sliceOf(outer.Common().Args[1], x)
-			switch {
-			case !fresh:
+			}
+			if strings.Join(shape, " ") != "x[p] x[:p] x[p+1:]" || !samePos {
 				okAll = false
-				r.Bad(rule, construct, p.Pos(ret.Pos()), "the hoisted list starts as a sub-slice of the argument, not as a fresh list: append then overwrites the caller's operands (an operand is lost, the input is modified)")
-			case !okB || !okA || before != "low=nil high=p" || after != "low=p+1 high=nil":
-				okAll = false
-				r.Bad(rule, construct, p.Pos(ret.Pos()), fmt.Sprintf("the hoisted list appends x[%s] then x[%s]; required x[:p] then x[p+1:] so that all other operands keep their order", before, after))
+				r.Bad(rule, construct, p.Pos(ret.Pos()), fmt.Sprintf("the hoisted list is %s (one position variable: %v); required x[p] x[:p] x[p+1:] so that only the direct assignment moves and every other operand keeps its order", strings.Join(shape, " ++ "), samePos))
 			}
 		}
 	}
@@ -443,6 +441,93 @@ func HoistShape(p *load.Prog, r *oblig.Report, rule string) {
 	} else if okAll {
 		r.OK(rule, construct, p.Pos(fn.Pos()), "ssa-shape", "argument itself, or fresh{x[p]} ++ x[:p] ++ x[p+1:]")
 	}
+}
+
+type listSeg struct {
+	kind string    // "x[p]", "x[:p]", "x[p+1:]", or a description of something else
+	p    ssa.Value // the position value involved
+}
+
+// listExpr reads a slice value as a concatenation of segments of the parameter x, built on a fresh base.
+func listExpr(v ssa.Value, x ssa.Value, depth int) ([]listSeg, string) {
+	if depth > 8 {
+		return nil, "expression too deep"
+	}
+	elemSeg := func(e ssa.Value) listSeg {
+		if ld, ok := e.(*ssa.UnOp); ok && ld.Op == token.MUL {
+			if ia, ok := ld.X.(*ssa.IndexAddr); ok && ia.X == x {
+				return listSeg{"x[p]", ia.Index}
+			}
+		}
+		return listSeg{"‹" + stripUnique(AccessPath(e)) + "›", nil}
+	}
+	switch y := v.(type) {
+	case *ssa.Const:
+		if y.IsNil() {
+			return nil, ""
+		}
+	case *ssa.MakeSlice:
+		if c, ok := y.Len.(*ssa.Const); ok && c.Int64() == 0 {
+			return nil, ""
+		}
+		return nil, "make with a non-zero length"
+	case *ssa.Slice:
+		if al, ok := y.X.(*ssa.Alloc); ok {
+			// slice literal: elements stored into the fresh array
+			arr, isArr := al.Type().Underlying().(*types.Pointer).Elem().Underlying().(*types.Array)
+			if !isArr {
+				return nil, "unsupported literal"
+			}
+			out := make([]listSeg, arr.Len())
+			for i := range out {
+				out[i] = listSeg{"‹zero›", nil}
+			}
+			if refs := al.Referrers(); refs != nil {
+				for _, ref := range *refs {
+					if ia, ok := ref.(*ssa.IndexAddr); ok && ia.Referrers() != nil {
+						if ic, ok := ia.Index.(*ssa.Const); ok && ic.Int64() < int64(len(out)) {
+							for _, r2 := range *ia.Referrers() {
+								if st, ok := r2.(*ssa.Store); ok {
+									out[ic.Int64()] = elemSeg(st.Val)
+								}
+							}
+						}
+					}
+				}
+			}
+			return out, ""
+		}
+		if y.X == x {
+			d, _ := sliceOf(y, x)
+			switch d {
+			case "low=nil high=p":
+				return []listSeg{{"x[:p]", y.High}}, ""
+			case "low=p+1 high=nil":
+				return []listSeg{{"x[p+1:]", y.Low.(*ssa.BinOp).X}}, ""
+			}
+			return []listSeg{{"x[" + d + "]", nil}}, ""
+		}
+		return nil, "a sub-slice of " + stripUnique(AccessPath(y.X))
+	case *ssa.Call:
+		if c, ok := appendCall(y); ok {
+			base, why := listExpr(c.Common().Args[0], x, depth+1)
+			if why != "" {
+				return nil, why
+			}
+			if sl, isSl := c.Common().Args[0].(*ssa.Slice); isSl && sl.X == x {
+				return nil, "it starts as a sub-slice of the argument, so append overwrites the caller's operands"
+			}
+			if c.Common().Args[0] == x {
+				return nil, "it appends to the argument itself"
+			}
+			more, why := listExpr(c.Common().Args[1], x, depth+1)
+			if why != "" {
+				return nil, why
+			}
+			return append(base, more...), ""
+		}
+	}
+	return nil, "unsupported list expression " + stripUnique(AccessPath(v))
 }
 
 func appendCall(v ssa.Value) (*ssa.Call, bool) {
@@ -594,21 +679,17 @@ func ExpressionVerbatim(p *load.Prog, r *oblig.Report, rule string) {
 		return
 	}
 	ok := false
-	for _, si := range sprintfCalls(pc, "Sprintf") {
-		vp := verbPositions(si.format)
-		for i, a := range si.args {
-			if a != nil && strings.HasSuffix(AccessPath(a), ".Expression") && i < len(vp) {
-				verb := si.format[vp[i][0]:vp[i][1]]
-				if verb == "%s" || verb == "%v" {
-					ok = true
-				}
+	for _, t := range ReturnTemplates(pc) {
+		for _, piece := range t {
+			if piece.Val != nil && isStringType(piece.Val.Type()) && strings.HasSuffix(AccessPath(piece.Val), ".Expression") {
+				ok = true
 			}
 		}
 	}
 	if ok {
 		r.OK(rule, c2, p.Pos(pc.Pos()), "format-shape", "GetExpression() through a plain verb")
 	} else {
-		r.Bad(rule, c2, p.Pos(pc.Pos()), "parseCondition does not emit GetExpression() through a plain %s verb of a constant format")
+		r.Bad(rule, c2, p.Pos(pc.Pos()), "no string returned by parseCondition contains GetExpression() itself (as a plain string operand of a Sprintf or concatenation)")
 	}
 }
 
